@@ -28,7 +28,7 @@ Drift(case, o) ==
   LET m == Run(case) IN
   IF Tags(m.call.w) # Tags(o.call.w) \/ Clz(m.call.w) # Clz(o.call.w) THEN "warnings of the environ check"
   ELSE IF m.call.exc # o.call.exc \/ m.call.entered # o.call.entered THEN "exception of the environ check"
-  ELSE IF m.call.entered /\ m.call.envdiff # o.call.envdiff THEN "environ keys replaced by the monitor"
+  ELSE IF m.call.entered /\ (m.call.envdiff # o.call.envdiff \/ m.call.envadded # o.call.envadded) THEN "environ keys replaced / added by the monitor"
   ELSE IF Len(m.acts) # Len(o.acts) THEN "number of application actions executed"
   ELSE IF ActDiff(m, o, 1) # "" THEN ActDiff(m, o, 1)
   ELSE IF Tags(m.ret.w) # Tags(o.ret.w) \/ m.ret.exc # o.ret.exc THEN "return of the application call"
@@ -51,7 +51,7 @@ Init == l = 1
 Next == /\ l <= Len(Lines)
         /\ LET x == Lines[l] IN
            IF x.op # "req" THEN TRUE
-           ELSE LET fs == Failing(x.case, x.obs)
+           ELSE LET fs == Failing(x.case, x.obs, TRUE)
                     d == IF fs = {} THEN Drift(x.case, x.obs) ELSE ""
                 IN /\ PrintAll(fs, x)
                    /\ IF d = "" THEN TRUE ELSE PrintT(ToJson([drift |-> 1, t |-> x.t, i |-> x.i, what |-> d]))
